@@ -274,10 +274,13 @@ def pack_dataclass(spec: ValueSpec) -> Optional[Expression]:
         else:
             cls_alias = clean_id(type_name(spec.origin_type))
             method_name_alias = f"{cls_alias}_{method_name}"
-            spec.builder.ensure_object_imported(
-                getattr(spec.attrs, method_name), method_name_alias
-            )
             method_args = spec.expression
+            method = getattr(spec.attrs, method_name, None)
+            if method is None:
+                # the method of this very class is being compiled right now
+                # (self-referencing dataclass): bind it late via its holder
+                return f"{spec.self_attrs_name}.{method_name}({method_args})"
+            spec.builder.ensure_object_imported(method, method_name_alias)
             return f"{method_name_alias}({method_args})"
 
 
